@@ -58,6 +58,8 @@ SymWhy(op, a, res) ==
           ELSE IF AsD(res.scaled) # SymScaled(a.X, a.grps) THEN "not-the-average-over-group-permutations"
           ELSE IF ~res.passes THEN "result-fails-symmetry-test"
           ELSE IF ~res.idempotent THEN "not-idempotent"
+          \* "an already symmetric tensor keeps its value": also after the result is written to
+          ELSE IF ~res.independent THEN "result-shares-storage-with-the-operand"
           ELSE "ok")
   ELSE IF op = "issymmetric" THEN
          (IF res.val # IsSymmetric(a.X, a.grps) THEN "wrong-answer"
